@@ -181,10 +181,12 @@ func (t *Transport) Ping(addr string) error {
 
 func checkPersistConnErr(err error, pc *persistConn) {
 	if err == ErrShutdown {
+		// Close the dead connection before anybody can see that it is dead and
+		// dial its replacement, so that both are never open at the same time.
 		pc.mu.Lock()
 		pc.alive = false
-		pc.mu.Unlock()
 		pc.Close()
+		pc.mu.Unlock()
 	}
 }
 
